@@ -510,20 +510,34 @@ class Normalizer:
                         return [self._with(m, l[:i] + [a.with_(exp=z3.simplify(a.exp + b.exp))] + l[i + 2:])], "diag-merge"
                 elif str(ka) > str(kb):
                     return [self._with(m, l[:i] + [b, a] + l[i + 2:])], "diag-comm"
-        # opaque inverse next to its own argument
+        # opaque inverse next to its own argument (exponents of diagonal atoms must match exactly; a single diagonal
+        # atom with a larger integer exponent loses one power)
+        def _exp1(xs):
+            return all((not x.diag) or _is_num(x.exp, 1) for x in xs)
         for i, a in enumerate(l):
             if a.kind == "inv" and not a.h and not a.c and len(a.inner) == 1 and not a.inner[0].scal:
                 inn = a.inner[0]
                 k = len(inn.atoms)
                 ik = [x.key for x in inn.atoms]
-                if k and [x.key for x in l[i + 1:i + 1 + k]] == ik:
-                    mm = self._with(m, l[:i] + l[i + 1 + k:])
-                    mm.coef = mm.coef / inn.coef
-                    return [mm], "inv(P)*P"
-                if k and i - k >= 0 and [x.key for x in l[i - k:i]] == ik:
-                    mm = self._with(m, l[:i - k] + l[i + 1:])
-                    mm.coef = mm.coef / inn.coef
-                    return [mm], "P*inv(P)"
+                if not k or not _exp1(inn.atoms):
+                    continue
+                for lo, hi in ((i + 1, i + 1 + k), (i - k, i)):
+                    if lo < 0 or hi > n:
+                        continue
+                    seg = l[lo:hi]
+                    if [x.key for x in seg] != ik:
+                        continue
+                    if _exp1(seg):
+                        rest = l[:i] + l[hi:] if lo > i else l[:lo] + l[i + 1:]
+                        mm = self._with(m, rest)
+                        mm.coef = mm.coef / inn.coef
+                        return [mm], "inv(P)*P"
+                    if k == 1 and seg[0].diag and self._nonneg_int(seg[0].exp) and z3.simplify(seg[0].exp).as_fraction() >= 1:
+                        red = seg[0].with_(exp=z3.simplify(seg[0].exp - 1))
+                        rest = (l[:i] + [red] + l[hi:]) if lo > i else (l[:lo] + [red] + l[i + 1:])
+                        mm = self._with(m, rest)
+                        mm.coef = mm.coef / inn.coef
+                        return [mm], "inv(D)*D^e"
         # hypotheses
         keys = [a.key for a in l]
         for name, lhs, rhs in self.rules:
